@@ -20,11 +20,11 @@ PROPS = {
     "C03": P("plans = (filter configuration x compliant IdP behaviour x requested URL x follow-up requests inside token lifetime), the index enumerating the boolean "
              "cross product (expires_in present, access-token forwarding, refresh none/static/rotate, aud array, extra members, memory/Redis) with the rest drawn from the seed; "
              "non-trivial = the login completed; distinct = distinct (configuration shape, provider shape, history length)",
-             {"runs": 6000, "budget_s": 25}, {"runs": 400000, "budget_s": 600}, must={"all": ["login-completed", "further-requests-ok"]}),
+             {"runs": 30000, "budget_s": 25}, {"runs": 400000, "budget_s": 600}, must={"all": ["login-completed", "further-requests-ok"]}),
     "C09": P("plans = set-up (fresh / expired-refreshable / mid-login session) + a logout task interleaved with 1-2 concurrent checks on the same cookie by the seeded scheduler at "
              "store-call and token-endpoint granularity (uniform and priority policies, IdP latency drawn per plan) + later sequential requests; plus sequential histories with logouts "
              "and logouts whose session removal fails; non-trivial = a logout was answered and at least one check with that cookie returned after it; distinct = canonical event trace + schedule trace",
-             {"runs": 12000, "budget_s": 30}, {"runs": 1500000, "budget_s": 900, "selftest_runs": 200},
+             {"runs": 40000, "budget_s": 30}, {"runs": 1500000, "budget_s": 900, "selftest_runs": 200},
              must={"all": ["refresh_in_flight_at_logout", "callback_in_flight_at_logout", "logout_first", "logout_last", "store-err-before", "store-err-after"]}),
     "C06": P("plans = (request instant at ns granularity, attacker window, hidden offset, k); modes: replay divergence (same plan, same simulated clock, two fresh processes-worth of state), "
              "k logins at one frozen instant, redirect for a presented id, time-window attacker trying every candidate instant in +-w ns with a fresh replica per candidate; "
@@ -41,50 +41,50 @@ PROPS = {
              "crafted callbacks (code and state taken from own / another browser's / forged / near-miss values, under own / another / no cookie; query variants: re-ordered, duplicated, "
              "differently-cased, empty, extra, missing members, fragment), then replays of completed callbacks; the strict RFC 6749/7636 monitor judges every token request; "
              "non-trivial = a login completed and a crafted callback reached the state lookup; distinct = event trace + schedule trace",
-             {"runs": 6000, "budget_s": 30}, {"runs": 600000, "budget_s": 900}, must={"all": ["logins-completed", "crafted-callback-reached-state-lookup", "crafted-callback-reached-token-endpoint"]}),
+             {"runs": 30000, "budget_s": 30}, {"runs": 600000, "budget_s": 900}, must={"all": ["logins-completed", "crafted-callback-reached-state-lookup", "crafted-callback-reached-token-endpoint"]}),
     "C05": P("plans = histories in which clients present absent, stale, attacker-chosen, pending and authenticated session ids on protected, public and edge-case paths, cookie-name prefixes over "
              "RFC 6265 token characters, all redirects of a run possibly at one frozen instant; every Set-Cookie is parsed by an independent RFC 6265 parser; store spy checks where tokens are written; "
              "non-trivial = redirects answered at least two classes of presented id; distinct = canonical event trace",
-             {"runs": 8000, "budget_s": 30}, {"runs": 800000, "budget_s": 900},
+             {"runs": 20000, "budget_s": 30}, {"runs": 800000, "budget_s": 900},
              must={"all": ["redirect-presented:none", "redirect-presented:pending", "redirect-presented:authenticated", "redirect-presented:stale", "redirect-presented:attacker-chosen", "tokens-bound"]}),
     "C11": P("plans = one login followed by 3-30 token lifetimes of (IdP behaviour change; clock advance past expiry; request), the provider rotating refresh tokens, omitting id_token / access_token / "
              "expires_in / refresh_token, echoing or emptying the nonce, rotating keys with and without publishing them, denying, forging refresh answers, and losing replies after processing; the "
              "refresh-token ledger and the merge model judge every exchange; non-trivial = at least one successful refresh; distinct = canonical event trace",
-             {"runs": 8000, "budget_s": 30}, {"runs": 800000, "budget_s": 900},
+             {"runs": 14000, "budget_s": 30}, {"runs": 800000, "budget_s": 900},
              must={"all": ["successful-refreshes", "failed-refreshes", "rotations-followed", "refresh-omitted-id-token", "token-reset-after"]}),
     "C13": P("plans = login flows under configurations drawn for URL well-formedness: client ids, scopes, callback and authorization URIs with and without their own query, with reserved, space, "
              "percent and non-ASCII characters; requested targets likewise; the provider-side strict parser (independent splitter/decoder) judges every Location; return Location compared byte for byte; "
              "non-trivial = a login completed; distinct = canonical event trace x configuration",
-             {"runs": 8000, "budget_s": 30}, {"runs": 800000, "budget_s": 900}, must={"all": ["logins-completed"]}),
+             {"runs": 30000, "budget_s": 30}, {"runs": 800000, "budget_s": 900}, must={"all": ["logins-completed"]}),
     "C14": P("plans = the union mix: C01's fault-injecting histories, C09's concurrent logout races, C11's refresh histories with lost replies, a third of them with debug logging; every secret "
              "(client secret, PKCE verifiers, refresh/access/ID tokens) is a unique marker searched in every answer, raw and after URL/base64 decoding; non-trivial = a non-OK answer was produced "
              "while secrets were live; distinct = canonical event trace",
-             {"runs": 6000, "budget_s": 35}, {"runs": 600000, "budget_s": 900}, must={"all": ["non-ok-responses-while-secrets-live", "responses-scanned"]}),
+             {"runs": 20000, "budget_s": 35}, {"runs": 600000, "budget_s": 900}, must={"all": ["non-ok-responses-while-secrets-live", "responses-scanned"]}),
     "C02": P("plans = histories mixing honest and Byzantine token answers on the login and the refresh path (adversarial grammar: alg=none, HMAC-with-public-key confusion, foreign key with "
              "same/other/no kid, another provider's key, tampered payload or signature, stripped signature, extra dots, two parts, JWS JSON serialisation, nested, empty, garbage, whitespace, "
              "absent/foreign/near-miss/substring/array-without audience, absent/foreign/empty/previous nonce, another session's token), key rotation and key-source errors around validation, "
              "all header/preamble configurations; every token bound to a session and every stored token is re-verified by a std-lib-only verifier against the provider's keys and ledger; "
              "non-trivial = at least one forged answer was delivered and at least one honest token was bound; distinct = canonical event trace",
-             {"runs": 8000, "budget_s": 30}, {"runs": 800000, "budget_s": 900}, must={"all": ["forged-answers", "tokens-bound", "justified-ok"]}),
+             {"runs": 30000, "budget_s": 30}, {"runs": 800000, "budget_s": 900}, must={"all": ["forged-answers", "tokens-bound", "justified-ok"]}),
     "C15": P("plans by fault kind: hostile client (27 malformed CheckRequest shapes: absent message parts, empty/huge fields, hostile cookies, hosts, paths, queries), malformed token-endpoint "
              "bodies at login and refresh (34 bodies from a JSON grammar: null, arrays, scalars, wrong member types, huge/negative/fractional numbers, duplicates, truncation, non-UTF-8, deep nesting, 4 MB), "
              "honestly signed tokens with claims of unexpected type (15 productions), malformed JWKS and discovery documents, a store that answers nil/empty/partial/unparsable values or whose Redis "
              "fields are corrupted in place, and all of these mixed into C01-style histories; oracle = recover() around Check + verdict well-formedness; "
              "non-trivial = a malformed input was delivered; distinct = canonical event trace",
-             {"runs": 6000, "budget_s": 35}, {"runs": 600000, "budget_s": 900},
+             {"runs": 25000, "budget_s": 35}, {"runs": 600000, "budget_s": 900},
              must={"all": ["raw-requests", "token-raw-body", "store-lie", "jwks-raw-body", "discovery-raw-body"]}),
     "C12": P("plans = sequences of 5-80 store operations (set/get tokens, set/get/clear login state, remove, sweep, clock advance) over 1-4 session ids, each routed to the memory store or to one of "
              "two Redis store instances sharing one miniredis; after every operation the return value is compared with a plain-map model and the complete ground-truth content of each store is "
              "compared with the model (tokens, login state, creation time, no foreign ids); a third of the plans inject Redis command failures (before/after effect) and crashes between the "
              "commands of one store method, judged with the narrow prefix-of-writes relaxation; every fourth plan is a concurrent history on the memory store (2-4 client tasks x 3-6 operations on 1-2 ids) in the "
              "instrumented build (pre-emption at every statement and inside critical sections), invoke/return stamped with the global event sequence number, values unique, checked with porcupine; non-trivial = a session was created and read; distinct = operation/result trace",
-             {"runs": 12000, "budget_s": 30}, {"runs": 1200000, "budget_s": 900}, instr=True,
+             {"runs": 40000, "budget_s": 30}, {"runs": 1200000, "budget_s": 900}, instr=True,
              must={"all": ["linearizability-histories", "histories-with-overlapping-writers-on-one-id", "overwrite-with-fewer-members", "clear-on-live-session", "remove-live-session", "same-id-on-both-redis-instances", "methods-interrupted-by-fault", "redis-cmd-err-before", "redis-cmd-err-after", "crash-between-redis-commands"]}),
     "C10": P("plans = (absolute, idle) pairs from {0,1 s,5 s,1 min,10 min,1 h,1 d,30 d}^2; store level: histories of 5-60 operations on the memory store and two Redis store instances with clock advances "
              "placed on either side of each limit (limit-2 s, limit+2 s, fractions, multiples); system level: a browser logs in at a replica built through the start-up wiring with long-lived tokens, the clock "
              "advances and a request probes the session (plus crash-restart with Redis); the oracle allows one second of granularity; non-trivial = a session was read inside or past its limits; "
              "distinct = operation/result trace",
-             {"runs": 12000, "budget_s": 30}, {"runs": 1200000, "budget_s": 900},
+             {"runs": 30000, "budget_s": 30}, {"runs": 1200000, "budget_s": 900},
              must={"all": ["reads-past-limits", "reads-inside-limits", "system-reads-past-limits", "system-reads-inside-limits", "kept-alive-up-to-the-absolute-limit"]}),
     "C18": P("plans = 2-3 OIDC filters in different chains (header match), distinct or equal cookie names, providers, client ids and timeouts, over four store topologies (shared memory store, shared Redis, "
              "distinct Redis servers, mixed); a browser logs in at one filter and presents that session to the others under their cookie names (alone, with both cookies, mid-login at the other "
@@ -96,7 +96,7 @@ PROPS = {
              "with duplication, delay and reordering, interleaved with logins and refreshes; reference = map secret name -> last non-empty value at a completed reconcile; judged at the token endpoint "
              "(Basic header on the code grant, client_secret form member on the refresh grant) and on every filter's configuration after each reconcile; "
              "non-trivial = a token request was made after a completed reconcile (or a cross-namespace start-up was judged); distinct = canonical event trace",
-             {"runs": 4000, "budget_s": 30}, {"runs": 400000, "budget_s": 900},
+             {"runs": 20000, "budget_s": 30}, {"runs": 400000, "budget_s": 900},
              must={"all": ["token-requests-after-reconcile", "runs-with-rotation", "cross-namespace-start-ups", "k8s-event:deleting", "k8s-event:remove-key", "k8s-event:empty", "k8s-event:delete"]}),
     "C20": P("plans = (inline CA | CA file | neither) x skip-verify (absent, true, \"true\", false, \"false\") x refresh interval (0, 1 s ... 1 h) x server certificate chaining to CA1, CA2 or an unknown CA, "
              "with histories of CA-file rewrites (CA1, CA2, both, unknown, torn, garbage, empty, deleted), server certificate changes, clock advances around the poll instants, handshake probes by "
@@ -104,7 +104,7 @@ PROPS = {
              "and counts reads/callbacks of the superseded ones; another seventh runs 2-4 concurrent FIRST loads of identical settings in the instrumented build "
              "(statement-level pre-emption inside LoadTLSConfig / WatchFile), compares the configurations handed out and rotates the CA file afterwards; expectation computed with crypto/x509 from the file content as of the last poll; "
              "non-trivial = at least one handshake was attempted; distinct = event log",
-             {"runs": 3000, "budget_s": 35}, {"runs": 300000, "budget_s": 900}, instr=True,
+             {"runs": 12000, "budget_s": 35}, {"runs": 300000, "budget_s": 900}, instr=True,
              must={"all": ["concurrent-first-loads", "long-lived-client-probes", "handshakes-judged:ok", "handshakes-judged:fail", "handshakes-after-a-rotation", "login-handshakes", "watchers-superseded", "same-config-checks", "ca-file:torn", "ca-file:delete"]}),
     "C16": P("plans = 4-12 concurrent tasks per run (first request, whole login, request on a fresh session, request that must refresh, logout, crafted callback, Kubernetes Secret reconcile, CA-file rewrite "
              "under a millisecond-interval watcher, TLS configuration load) on 1-2 filters with static and discovered endpoints, static and fetched keys, memory and Redis, inline and Kubernetes client "
